@@ -630,7 +630,7 @@ PROPS["C11"] = dict(
     proof_targets=["Props/C11.vo"],
     props_module="Props.C11",
     theorems=["C11_dir_ids_are_exactly_the_matching_files", "C11_missing_directory_is_an_error",
-              "C11_code_as_specified"],
+              "C11_rec_dir_ids_is_the_union", "C11_code_as_specified"],
     engines=[("srcdiff", []), ("sysdiff", ["--mode", "cold", "--cases", "200"])],
     relevant_classes=["iter-mismatch"],
     rule=SRC_RULE,
